@@ -1,4 +1,5 @@
 (* Props/C10.v — property C10: panics in user code are contained and reported. *)
+From CV Require Proofs.ReviewP Model.Sched.
 From CV Require Import Model.Base Model.Events Model.Attempt Model.AttemptSpec Proofs.BaseP Proofs.AttemptP.
 
 (* a panicking step becomes the failure carrying exactly its payload ... *)
@@ -30,3 +31,26 @@ Theorem C10_failed_flag :
     (match snd (phases i) with inr (FSkipped _) | inl _ => false | inr _ => true end
      || match ai_after i with Some (Some _) => true | _ => false end).
 Proof. exact is_failed_spec. Qed.
+
+
+(* ---------- C10 AT RUN LEVEL (review finding H6): the process panic hook ----------
+   `hook_suppressed` is the scheduler model's record of "the process-wide panic hook is replaced by a silent one".
+   In EVERY reachable state it is set exactly while the execution loop has begun and not ended — whatever panics
+   happen in attempts (`LAttEnd _ true`) in between; the differential check C10b observes the same on the real
+   runner (hook generations before / during / after the run). *)
+Theorem C10_panic_hook_replaced_exactly_while_the_loop_runs :
+  forall c ls s tr, Sched.exec c ls = Some (s, tr) ->
+    (Sched.hook_suppressed s = true <-> (Sched.pc s = Sched.Awaiting \/ Sched.pc s = Sched.Yielded)).
+Proof. exact ReviewP.hook_suppressed_iff_loop_active. Qed.
+Print Assumptions C10_panic_hook_replaced_exactly_while_the_loop_runs.
+
+Theorem C10_panic_hook_restored_when_the_run_ends :
+  forall c ls s tr, Sched.exec c ls = Some (s, tr) -> Sched.pc s = Sched.Done -> Sched.hook_suppressed s = false.
+Proof. exact ReviewP.hook_restored_after_the_loop. Qed.
+Print Assumptions C10_panic_hook_restored_when_the_run_ends.
+
+Theorem C10_panic_hook_untouched_before_the_first_turn :
+  forall c ls s tr, ~ In Sched.LTop ls -> Sched.exec c ls = Some (s, tr) ->
+    Sched.pc s = Sched.NotBegun /\ Sched.hook_suppressed s = false.
+Proof. exact ReviewP.hook_untouched_before_first_turn. Qed.
+Print Assumptions C10_panic_hook_untouched_before_the_first_turn.
